@@ -29,8 +29,8 @@ pub fn profile(id: &str) -> Profile {
             p.ops = (2, 6);
         }
         "C04" => {
-            p.opw = OpW { sync: 16, desync: 6, futdesync: 4, trysync: 2, futsync: 2, after: 2, await_: 3, waitfor: 3, pollonce: 2, ..OpW::default() };
-            p.stepw = StepW { nested_sync: 4, ..StepW::default() };
+            p.opw = OpW { sync: 16, desync: 6, futdesync: 5, trysync: 2, futsync: 4, after: 2, await_: 3, waitfor: 3, pollonce: 5, dropfut: 3, ..OpW::default() };
+            p.stepw = StepW { nested_sync: 5, ..StepW::default() };
             p.callers = (2, 4);
         }
         "C05" => {
@@ -60,7 +60,10 @@ pub fn profile(id: &str) -> Profile {
             p.wakers = (1, 2);
         }
         "C09" => {
-            p.opw = OpW { trysync: 16, sync: 8, desync: 10, futdesync: 5, await_: 4, futsync: 2, after: 2, ..OpW::default() };
+            p.opw = OpW { trysync: 16, sync: 8, desync: 10, futdesync: 5, await_: 4, futsync: 2, after: 2, rewake: 4, opengate: 4, ..OpW::default() };
+            p.stepw = StepW { yield_: 10, ..StepW::default() };
+            p.gates = (1, 3);
+            p.wakers = (1, 2);
             p.callers = (2, 4);
         }
         "C10" => {
@@ -85,6 +88,7 @@ pub fn profile(id: &str) -> Profile {
             p.gates = (0, 2);
         }
         "C13" => {
+            p.shape = Shape::Suspend;
             p.queue_level_pct = 100;
             p.opw = OpW { suspend: 8, awaitsuspend: 10, resume: 6, dropresumer: 3, desync: 10, sync: 6, futdesync: 4, await_: 3, trysync: 2, waitfor: 4, futsync: 0, after: 1, ..OpW::default() };
         }
@@ -100,7 +104,8 @@ pub fn profile(id: &str) -> Profile {
             p.queue_level_pct = 0;
         }
         "C16" => {
-            p.opw = OpW { pipe: 10, droppipe: 8, consume: 4, desync: 3, sync: 2, yield_: 4, ..OpW::default() };
+            p.shape = Shape::PipeDrop;
+            p.opw = OpW { pipe: 2, droppipe: 2, consume: 3, desync: 5, sync: 3, yield_: 4, futdesync: 2, await_: 2, ..OpW::default() };
             p.streams = (1, 2);
             p.queue_level_pct = 0;
             p.gates = (0, 2);
@@ -268,6 +273,69 @@ pub fn poolchange_case(p: &Profile) -> BoxedStrategy<Case> {
     .boxed()
 }
 
+/// C13: splice `suspend; await-suspend; <non-blocking work>; resume | drop-resumer | (nothing)` into a caller
+pub fn suspend_case(p: &Profile) -> BoxedStrategy<Case> {
+    let p = p.clone();
+    let mut mid = p.clone();
+    mid.opw = OpW { desync: 10, trysync: 3, futdesync: 4, yield_: 4, opengate: 2, sync: 0, futsync: 0, after: 1, await_: 0, syncwait: 0, pollonce: 0, dropfut: 1, detach: 1, release: 0, waitfor: 0, suspend: 0, awaitsuspend: 0, resume: 0, dropresumer: 0, ..OpW::default() };
+    let mid_ops = vec(op_strategy(&mid), 0..=3);
+    (cfg_strategy(&p), phase_strategy(&p), sched_strategy(p.sched_bytes), (any::<u8>(), any::<u8>(), any::<u8>(), mid_ops, 0u8..4)).prop_map(|(cfg, mut phase, sched, (which, pos, o, mid, end))| {
+        if !phase.callers.is_empty() {
+            let c = (which as usize * phase.callers.len()) >> 8;
+            let ops = &mut phase.callers[c];
+            let at = (pos as usize * (ops.len() + 1)) >> 8;
+            let mut seq = vec![Op::Suspend { o, slot: 255, id: 0 }, Op::AwaitSuspend { slot: 255 }];
+            seq.extend(mid);
+            match end {
+                0 | 1 => seq.push(Op::Resume { slot: 255 }),
+                2 => seq.push(Op::DropResumer { slot: 255 }),
+                _ => {}
+            }
+            let tail = ops.split_off(at);
+            ops.extend(seq);
+            ops.extend(tail);
+        }
+        Case { cfg, phases: vec![phase], sched }
+    })
+    .boxed()
+}
+
+/// C16: splice `pipe; <work>; drop output` into a caller; the input mostly stays open and silent afterwards
+pub fn pipedrop_case(p: &Profile) -> BoxedStrategy<Case> {
+    let p = p.clone();
+    let mut mid = p.clone();
+    mid.opw = OpW { consume: 6, yield_: 6, desync: 4, sync: 2, opengate: 2, trysync: 1, futdesync: 0, futsync: 0, after: 0, await_: 0, syncwait: 0, pollonce: 0, dropfut: 0, detach: 0, release: 0, waitfor: 0, ..OpW::default() };
+    let mid_ops = vec(op_strategy(&mid), 0..=3);
+    let pipe_body = vec(prop_oneof![4 => Just(Step::Touch), 4 => Just(Step::Yield), 3 => any::<u8>().prop_map(|g| Step::AwaitGate { g })], 0..=2);
+    let producer = vec(prop_oneof![3 => Just(POp::Yield), 6 => (1u8..=3).prop_map(|n| POp::Push { n })], 0..=5);
+    (cfg_strategy(&p), phase_strategy(&p), sched_strategy(p.sched_bytes), (any::<u8>(), any::<u8>(), any::<u8>(), any::<u8>(), mid_ops, pipe_body, producer)).prop_map(|(mut cfg, mut phase, sched, (which, pos, o, depth, mid, body, producer))| {
+        cfg.streams = cfg.streams.max(1);
+        cfg.level = Level::Desync;
+        if !phase.callers.is_empty() {
+            let c = (which as usize * phase.callers.len()) >> 8;
+            let ops = &mut phase.callers[c];
+            let at = (pos as usize * (ops.len() + 1)) >> 8;
+            // stream 0 and pipe slot 3 are reserved for the spliced pipe
+            let mut seq = vec![Op::Pipe { o, s: 0, depth, body, slot: 255, id: 0 }];
+            seq.extend(mid.into_iter().map(|m| match m {
+                Op::Consume { k, .. } => Op::Consume { slot: 255, k },
+                other => other,
+            }));
+            seq.push(Op::DropPipe { slot: 255 });
+            let tail = ops.split_off(at);
+            ops.extend(seq);
+            ops.extend(tail);
+        }
+        if phase.producers.is_empty() {
+            phase.producers.push(producer);
+        } else {
+            phase.producers[0] = producer;
+        }
+        Case { cfg, phases: vec![phase], sched }
+    })
+    .boxed()
+}
+
 // ------------------------------------------------------------------------------------------------
 // non-triviality rules
 
@@ -344,6 +412,7 @@ pub fn labels(id: &str, case: &Case, out: &Outcome) -> Vec<String> {
     flag(s.backpressure_hits > 0, "backpressure-reached");
     flag(s.consumer_pending > 0, "consumer-waited");
     flag(s.suspended_ops_held > 0, "op-invoked-during-suspension");
+    flag(s.stale_wakes > 0, "stale-wakers-fired-again");
     flag(s.pipe_dropped_while_job > 0, "pipe-dropped-while-poll-job-active");
     flag(out.status == vsched::rt::Status::StepBound, "step-bound");
     let _ = id;
